@@ -8,6 +8,7 @@
    ------------------------------------------------------------------ hx_link c02 < script
      N enc  <Fs> <ch> <app> <seed> | fo co api  fo co api ...      one encoder, the listed decoders
      N surr <Fs> <ch> <fam> <app> <seed> | fo api  fo api ...      surround (multistream) encoder + ms decoders
+     N mse  <Fs> <ch> <streams> <coupled> <app> <seed> | fo api ...   plain multistream encoder, identity mapping
      N penc <Fs> <ch> <fam> <app> <seed> | fo api ...              projection encoder + projection decoders
      S <req> <v>                                                   control request on the encoder
      R                                                             OPUS_RESET_STATE on the encoder
@@ -16,7 +17,7 @@
         5 speech-like with NaN / Inf / huge samples sprinkled in (float entry point; the integer entry
         points get saturated full-scale values instead), 6 wide stereo music-like, 7 every sample huge (1e10)
         or NaN, 8 pure tone, 9 impulses, 11 clean talk spurts separated by digital silence (no noise), 12 clean talker
-        without pauses (c09 also: 10 = signal 1 with pauses of 0.7 s).
+        without pauses, 13 tones + noise ramping within 120 ms (c09 also: 10 = signal 1 with pauses of 0.7 s).
    Each produced packet is decoded, in order, by every decoder of the execution.
 
    ------------------------------------------------------------------ hx_link c09 < script
@@ -111,6 +112,13 @@ static void gen_sig(sgen_t *s, int kind, float *x, int n, int ch, int fs)
       case 8: s->phase += 2 * M_PI * 1000.0 / fs; if (s->phase > 2 * M_PI) s->phase -= 2 * M_PI; v = 0.5 * sin(s->phase); w = v; break;
       case 9: v = (s->n % (fs / 100) == 3) ? 0.9 : 0.0; w = (s->n % (fs / 80) == 5) ? -0.9 : 0.0; break;
       case 11: case 12: v = cleanspeech(s, fs, kind == 11); w = 0.8 * v; break;
+      case 13: {   /* non-stationary within a packet: steady tones plus noise whose level ramps 1 -> 0.15 -> 1 over 120 ms,
+                      so that the 20 ms frames of one long packet get different variable-rate sizes */
+         double ph = fmod(s->t, 0.12) / 0.06, ramp = 0.15 + 0.85 * (ph < 1 ? 1.0 - ph : ph - 1.0);
+         s->phase += 2 * M_PI * 220.0 / fs; if (s->phase > 2 * M_PI * 64) s->phase -= 2 * M_PI * 64;
+         v = 0.18 * sin(s->phase) + 0.09 * sin(7.77 * s->phase) + 0.27 * ramp * (hx_unit(&s->r) * 2 - 1);
+         w = 0.18 * sin(2 * s->phase) + 0.09 * sin(8.21 * s->phase) + 0.27 * ramp * (hx_unit(&s->r) * 2 - 1);
+         break; }
       default: break;
       }
       for (c = 0; c < ch; c++) x[(size_t)i * ch + c] = (float)((c & 1) ? w : v);
@@ -229,6 +237,14 @@ static int c02_new(char *line)
       if (sscanf(line, "N surr %d %d %d %d %lu", &o.Fs, &o.ch, &o.fam, &o.app, &seed) != 5) return -1;
       FUZZ_SEED(seed);
       o.me = opus_multistream_surround_encoder_create(o.Fs, o.ch, o.fam, &o.S, &o.C, map, o.app, &err); o.kind = 2;
+   } else if (!strcmp(kind, "mse")) {
+      /* plain multistream encoder: <streams> streams of which the first <coupled> are stereo, identity mapping (fam = coupled) */
+      int k2;
+      if (sscanf(line, "N mse %d %d %d %d %d %lu", &o.Fs, &o.ch, &o.S, &o.C, &o.app, &seed) != 6) return -1;
+      if (o.ch < 1 || o.ch > 255) return -1;
+      FUZZ_SEED(seed);
+      for (k2 = 0; k2 < o.ch; k2++) map[k2] = (unsigned char)k2;
+      o.me = opus_multistream_encoder_create(o.Fs, o.ch, o.S, o.C, map, o.app, &err); o.kind = 2; o.fam = -1;
    } else if (!strcmp(kind, "penc")) {
       if (sscanf(line, "N penc %d %d %d %d %lu", &o.Fs, &o.ch, &o.fam, &o.app, &seed) != 5) return -1;
       FUZZ_SEED(seed);
